@@ -552,13 +552,13 @@ func main() {
 	r := vgen.NewRand(run.Seed)
 	thorough := run.Tier == "thorough"
 
-	nEnc := run.Count(40, 300)
-	nE2E := run.Count(160, 1200)
-	nRx := run.Count(60, 500)
+	nEnc := run.Count(40, 800)
+	nE2E := run.Count(160, 4000)
+	nRx := run.Count(60, 1200)
 
 	maxLenFor := func(cr *vgen.Rand) int {
 		if thorough {
-			switch cr.Intn(40) {
+			switch cr.Intn(30) {
 			case 0:
 				return 9000
 			case 1, 2, 3, 4, 5, 6:
